@@ -4,9 +4,8 @@
 #   topic OSAPPath      osap.go (*optSuffixArrayParser).shortestPath     proofs LzProofs/GenOSAPLemmas.lean, GenOSAPPath.lean
 #   topic OSAPParse     osap.go (*optSuffixArrayParser).Parse            proofs LzProofs/GenOSAPParse*.lean, GenOSAPAll.lean
 #   topic OSAPInit      osap.go (*optSuffixArrayParser).init, Reset, Shrink, resetEdges   proofs LzProofs/GenOSAPInit.lean
-# NOT covered: (*optSuffixArrayParser).computeEdges is an OPAQUE callee of Parse (hypothesis CESpec) and is not
-# translated (notes/osap-translate.md §7), so mutants of its window test, offset computation, maxLen clamp cannot be
-# detected here; they are listed at the end as comments.
+#   topic OSAPEdges     osap.go (*optSuffixArrayParser).computeEdges with its closure f (lambda-lifted, code_cblift.go)
+#                       proofs LzProofs/GenOSAPEdgesCB.lean, GenOSAPEdgesFold.lean, GenOSAPEdges.lean, GenOSAPHistGo.lean
 #
 # For every mutant: copy the repository to <verif>/scratch-repo, apply one small semantic
 # change, regenerate LzModel/Generated/Code*.lean from the copy into a COPY of the lake
@@ -28,7 +27,7 @@ LEAN="$SCRATCH/lean"
 GEN="$LEAN/LzModel/Generated"
 MUT="$HERE/scratch-repo"
 EXTRACT="$SCRATCH/extract"
-TARGETS="${TARGETS:-LzProofs.GenOSAPPath LzProofs.GenOSAPParse LzProofs.GenOSAPInit LzProofs.GenOSAPAll}"
+TARGETS="${TARGETS:-LzProofs.GenOSAPPath LzProofs.GenOSAPParse LzProofs.GenOSAPInit LzProofs.GenOSAPAll LzProofs.GenOSAPEdges LzProofs.GenOSAPHistGo}"
 bad=0; good=0; total=0
 
 cleanup() { rm -rf "$SCRATCH" "$MUT"; }
@@ -119,9 +118,21 @@ mutant "alias: the range value q is re-sliced to its capacity"                  
 mutant "alias: the scratch slice s.tmp is handed out a second time"             extract osap.go 's/(\tsp := s\.shortestPath\(s\.tmp\[:0\], n\)\n)/\ttmp2 := s.tmp[:0]\n\t_ = tmp2\n${1}/'
 mutant "fnfield: a closure is stored in the field cost"                         extract osap.go 's/\t\ts\.cost = XZCost\n/\t\ts.cost = func(m, o uint32) uint64 { return XZCost(m, o) }\n/'
 mutant "alias: an element is written through the local alias of s.edges"        extract osap.go 's/(\tedges := s\.edges\[k : k\+n\]\n)/${1}\tedges[0] = nil\n/'
-# --- NOT detectable here (computeEdges is an opaque callee of Parse, hypothesis CESpec; it is not translated):
-#   computeEdges: window test `o > uint32(s.WindowSize)` -> `>=` ; offset `o := uint32(i - seg[j-1])` -> `seg[j] - seg[j-2]` ;
-#   `maxLen` clamp to MaxMatchLen dropped ; `k < 0` break -> continue ; `slices.Sort(seg)` dropped.
+# --- osap.go: (*optSuffixArrayParser).computeEdges and its closure f (topic OSAPEdges, code_cblift.go; proofs
+#     LzProofs/GenOSAPEdgesCB.lean, GenOSAPEdgesFold.lean, GenOSAPEdges.lean, GenOSAPHistGo.lean)
+mutant "edges: window test o >= uint32(s.WindowSize) (offset WindowSize is dropped)" proof osap.go 's/if o > uint32\(s\.WindowSize\) \{/if o >= uint32(s.WindowSize) {/'
+mutant "edges: offset computed from the wrong predecessor (seg[0])"             proof osap.go 's/o := uint32\(i - seg\[j-1\]\)/o := uint32(i - seg[0])/'
+mutant "edges: maxLen is not clamped to MaxMatchLen"                            proof osap.go 's/\tif int\(maxLen\) > s\.MaxMatchLen \{\n\t\tmaxLen = int32\(s\.MaxMatchLen\)\n\t\}\n//'
+mutant "edges: positions in front of the block are skipped, not the rest (k < 0: continue)" proof osap.go 's/(\t\t\tk := i \+ w\n\t\t\tif k < 0 \{\n)\t\t\t\tbreak/${1}\t\t\t\tcontinue/'
+mutant "edges: an edge is stored although the last one has a smaller offset (re-use test <)" proof osap.go 's/if \(\*p\)\[len\(\*p\)-1\]\.o <= o \{/if (*p)[len(*p)-1].o < o {/'
+mutant "edges: the segment is not sorted (slices.Sort only in dead code)"       proof osap.go 's/\t\tslices\.Sort\(seg\)\n/\t\tif len(seg) < 0 {\n\t\t\tslices.Sort(seg)\n\t\t}\n/'
+mutant "edges: the edge counter is not incremented"                             proof osap.go 's/\t\t\ts\.nEdges\+\+\n//'
+mutant "edges: the windows have capacity 4 but the step is 3 (k := i * 3)"      extract osap.go 's/\t\tk := i \* 4\n/\t\tk := i * 3\n/'
+mutant "edges: the offset w captured by the closure is changed after its definition" extract osap.go 's/(\tsuffix\.Segments\(sa, lcp, s\.MinMatchLen, int\(maxLen\), f\))/\tw = w + 0\n${1}/'
+mutant "edges: sa is handed to a function of the package before Segments runs (the window source may escape)" extract osap.go 's/(\tsuffix\.Segments\(sa, lcp, s\.MinMatchLen, int\(maxLen\), f\))/\t_ = keepLen(sa)\n${1}/; s/(func \(s \*optSuffixArrayParser\) computeEdges\(\) \{)/func keepLen(x []int32) int { return len(x) }\n\n${1}/'
+mutant "edges: an element of edgeBuf is written (the field is not element-blind)" extract osap.go 's/(\ts\.nEdges = 0\n\n\tif len\(data\) == 0 \{)/\tif len(s.edgeBuf) > 0 {\n\t\ts.edgeBuf[0] = edge{}\n\t}\n${1}/'
+mutant "harmless: window test written uint32(s.WindowSize) < o"                 harmless osap.go 's/if o > uint32\(s\.WindowSize\) \{/if uint32(s.WindowSize) < o {/'
+mutant "harmless: the clamp written with >="                                    harmless osap.go 's/\tif int\(maxLen\) > s\.MaxMatchLen \{/\tif int(maxLen) >= s.MaxMatchLen {/'
 
 echo "== summary: $good of $total mutants behaved as expected, $bad did not"
 [ $bad -eq 0 ]
